@@ -69,7 +69,8 @@ pub fn build(tier: Tier) -> Vec<Arc<ExchCfg>> {
                                     menu.arrive = if tier.thorough() { vec![1, usize::MAX] } else { vec![usize::MAX] };
                                     menu.allow_giveup = true;
                                     let trailing = if close { vec![] } else { b"HTTP/1.1 200 OK\r\n\r\n".to_vec() };
-                                    let cfg = ExchCfg::new("C10", rs.cfg.clone(), rs.body.clone(), srv, trailing, menu).expect("cfg");
+                                    let mut cfg = ExchCfg::new("C10", rs.cfg.clone(), rs.body.clone(), srv, trailing, menu).expect("cfg");
+                                    cfg.scope = |k| k.starts_with("verdict:") || k.starts_with("redirect:wrong-status");
                                     out.push(Arc::new(cfg));
                                 }
                             }
